@@ -73,6 +73,9 @@ THEOREMS = [
          "lower-cased string only", strength="full"),
     dict(name="Snow.C01.nonvacuous_run", clause="run_trichotomy_partial applied to the concrete run with ice of "
          "C06.nonvacuous_run (the solidifying transition column 1 -> 2)", strength="nonvacuity"),
+    dict(name="Snow.C01.nonvacuous_below_liquidus", clause="run_trichotomy_below_liquidus applied to the same concrete run "
+         "(start -3 <= T_eq_l = -1, StaticSide from C06.x_staticSide): hypotheses satisfiable, conclusion = the solidifying "
+         "transition column 1 -> 2 and the step-function link", strength="nonvacuity"),
     dict(name="Snow.C01.nonvacuous_uncoupled", clause="run_trichotomy_uncoupled applied to the same concrete run (one vial, "
          "k_int = 0): hypotheses satisfiable, conclusion = the solidifying transition column 1 -> 2, no side condition "
          "supplied", strength="nonvacuity"),
